@@ -47,7 +47,7 @@ def rand_sm(rng, negative=False):
         rng.shuffle(props)
     charts = []
     for _ in range(rng.choice([0, 1, 1, 2, 4])):
-        charts.append([G.stripped(rng) for _ in range(5)] + [rng.choice(["0000\n0000", "1000\n0100\n,\n0010", ""]), []])
+        charts.append([G.stripped(rng) for _ in range(5)] + [rng.choice(["0000\n0000", "1000\n0100\n,\n0010", "", "0110\n2003\n,\nM000\n0000\n3000\n0000", "10\n01"]), []])
     return props, charts
 
 
@@ -61,7 +61,7 @@ def rand_templates(rng):
         ts = {"props": "empty", "extra": [], "charts": rng.choice([0, 1])}
     if rng.random() < 0.3:
         pool = [["CHARTNAME", "t"], ["CREDIT", "c"], ["DISPLAYBPM", "90.000:180.000"], ["ATTACKS", "TIME=1.5:LEN=2:MODS=drunk"], ["DISPLAYBPM", "*"]]
-        tc = {"extra": rng.sample(pool, rng.randrange(0, 4)), "empty": rng.random() < 0.2, "notes2": rng.random() < 0.25}
+        tc = {"extra": rng.sample(pool, rng.randrange(0, 4)), "empty": rng.random() < 0.2, "notes2": rng.random() < 0.4}
     return ts, tc
 
 
@@ -158,6 +158,13 @@ def impl(c):
     o["timing_equal"] = G.guarded(lambda: td_obs(out) == td_obs(sm))[1]
     ntmpl = len(ts.charts) if ts is not None and len(ts) else 0
     o["chart_timing_equal"] = G.guarded(lambda: all(td_obs(out, oc) == td_obs(sm, sc) for oc, sc in zip(out.charts[ntmpl:], sm.charts)))[1]
+    def notes_obs(ch):
+        from simfile.notes import NoteData
+        try:
+            return ["ok", [G.note_obs(n) for n in NoteData(ch)], NoteData(ch).columns]
+        except Exception as e:
+            return ["err", type(e).__name__]
+    o["notes_equal"] = G.guarded(lambda: all(notes_obs(oc) == notes_obs(sc) for oc, sc in zip(out.charts[ntmpl:], sm.charts)))[1]
     o["reload_equal"] = G.guarded(lambda: SSCSimfile(string=str(out)) == out and conv_obs(SSCSimfile(string=str(out))) == conv_obs(out))[1]
     # no shared mutable object: identity, then mutate the result and look at the inputs again
     shared = False
@@ -203,7 +210,7 @@ def model(c, ans):
         return SKIP
     if r[0] == "err":
         return {"res": r, "unmodified": True}
-    return {"res": r, "unmodified": True, "timing_equal": True, "chart_timing_equal": True, "reload_equal": True, "no_sharing": True}
+    return {"res": r, "unmodified": True, "timing_equal": True, "chart_timing_equal": True, "notes_equal": True, "reload_equal": True, "no_sharing": True}
 
 
 def oracle(c, o):
@@ -211,10 +218,10 @@ def oracle(c, o):
         return "library raised %s (%s)" % (o["__harness_exc__"], o.get("msg"))
     sf, charts, tso, tco = src_obs(c)
     neg = False
-    from simfile.timing import BeatValues
+    from decimal import Decimal
     d = dict((k, v) for k, v in sf)
-    try:
-        neg = any(b.value < 0 for key in ("BPMS", "STOPS") for b in BeatValues.from_str(d.get(key)))
+    try:      # read independently of the library's own parser
+        neg = any(Decimal(row.strip().split("=")[1].strip()) < 0 for key in ("BPMS", "STOPS") for row in (d.get(key) or "").split(",") if (d.get(key) or "") != "")
     except Exception:
         return None
     if "STOPS" not in d and "FREEZES" in d:
@@ -246,7 +253,7 @@ def oracle(c, o):
         for k, v in sc:
             if ocd.get(k) != v:
                 return "chart field %s: source %r, result %r" % (k, v, ocd.get(k))
-    for key in ("unmodified", "timing_equal", "chart_timing_equal", "reload_equal", "no_sharing"):
+    for key in ("unmodified", "timing_equal", "chart_timing_equal", "notes_equal", "reload_equal", "no_sharing"):
         if o.get(key) is not True:
             return "%s is %s" % (key, o.get(key))
     return None
